@@ -32,14 +32,19 @@ def build(tier: str) -> List[Cond]:
                 placements += [((p, p2), (0,)) for p in range(tl) for p2 in range(p, tl)]
             if tier == "quick" and tl == 4:
                 placements = [pl for i, pl in enumerate(placements) if i % 2 == 0]
-            for (tps, qps) in placements:
+            # the same modification twice on one target residue against a query carrying it once (multisets, not sets)
+            dups = [((p, p), (0,), True) for p in range(tl)] if (tl <= 3 or tier == "thorough") else []
+            for pl in [pl_ + (False,) for pl_ in placements] + dups:
+                tps, qps, same = pl
                 shape = dict(ntp=len(tps), nqp=len(qps), **{f"tp{i}": v for i, v in enumerate(tps)}, **{f"qp{i}": v for i, v in enumerate(qps)})
-                tag = f"t={tl}/q={ql}/tmods={','.join(map(str, tps)) or '-'}/qmods={','.join(map(str, qps)) or '-'}"
+                if same:
+                    shape["same"] = True
+                tag = f"t={tl}/q={ql}/tmods={','.join(map(str, tps)) or '-'}/qmods={','.join(map(str, qps)) or '-'}" + ("/same-value" if same else "")
                 conds.append(Cond(oid=f"find/{tag}", clause="find_subsequence_indices: all offsets incl. overlapping; with ignore_mods = plain substring search",
                                   module="vf.h.c16", func="o_find", shape=shape, sym=[("tseq", "str"), ("qseq", "str"), ("ignore_mods", "bool")],
                                   pre=_str_pre("tseq", tl) + _str_pre("qseq", ql), timeout=t, functions=FUNCS,
                                   bounds=f"target length {tl}, query length {ql} over {{A,K}} symbolic (regex is a realisation point: solver-driven enumeration); modification positions fixed"))
-                if len(tps) <= 1 and len(qps) <= 1 and (not qps or qps[0] == 0):
+                if not same and len(tps) <= 1 and len(qps) <= 1 and (not qps or qps[0] == 0):
                     conds.append(Cond(oid=f"unordered/{tag}", clause="order-insensitive containment = multiset inclusion of modified residues",
                                       module="vf.h.c16", func="o_unordered", shape=shape, sym=[("tseq", "str"), ("qseq", "str")],
                                       pre=_str_pre("tseq", tl) + _str_pre("qseq", ql), timeout=t, functions=FUNCS, bounds=f"target {tl}, query {ql}"))
